@@ -54,9 +54,30 @@ pub struct DataTable {
     pub cols: Vec<(String, Ty)>,
     /// index of a NOT NULL column, if any
     pub not_null: Option<usize>,
+    /// index of a column declared with a DEFAULT (an INT, REAL, TEXT or BOOLEAN column without another modifier), if any
+    #[serde(default)]
+    pub default_col: Option<usize>,
 }
 
 impl DataTable {
+    fn default_text(&self, i: usize) -> &'static str {
+        if self.default_col != Some(i) || self.not_null == Some(i) {
+            return "";
+        }
+        match self.cols[i].1 {
+            Ty::Int => " DEFAULT 7",
+            Ty::Real => " DEFAULT 2.5",
+            Ty::Text => " DEFAULT 'dflt'",
+            Ty::Bool => " DEFAULT FALSE",
+            _ => "",
+        }
+    }
+
+    /// Whether a column really carries a DEFAULT in the definition text.
+    pub fn has_default(&self) -> bool {
+        (0..self.cols.len()).any(|i| !self.default_text(i).is_empty())
+    }
+
     pub fn definition(&self) -> String {
         let mut parts = Vec::new();
         if self.json {
@@ -66,7 +87,7 @@ impl DataTable {
                 } else if matches!(ty, Ty::Ts | Ty::Iv) {
                     " CONVERT"
                 } else {
-                    ""
+                    self.default_text(i)
                 };
                 parts.push(format!("{{ .{} }} => {} {}{}", name, name, ty.sql(), modifier));
             }
@@ -84,7 +105,7 @@ impl DataTable {
             }
             parts.push(format!("line = {}", crate::sql::quote(&pattern)));
             for (i, (name, ty)) in self.cols.iter().enumerate() {
-                let modifier = if self.not_null == Some(i) { " NOT NULL" } else { "" };
+                let modifier = if self.not_null == Some(i) { " NOT NULL" } else { self.default_text(i) };
                 parts.push(format!("line[{}] => {} {}{}", i + 1, name, ty.sql(), modifier));
             }
         }
@@ -248,7 +269,9 @@ pub fn gen_table(t: &mut Tape, name: &str, prefix: &str, allow_not_null: bool) -
             not_null = None;
         }
     }
-    DataTable { name: name.to_string(), json, cols, not_null }
+    // one table in six declares a DEFAULT for one of its columns (absent fields then carry that value, not NULL)
+    let default_col = if t.chance(1, 6) { Some(t.draw(ncols)) } else { None };
+    DataTable { name: name.to_string(), json, cols, not_null, default_col }
 }
 
 /// Lines for a table: rows with NULLs in every position, plus (optionally) lines that yield no row.
